@@ -297,7 +297,7 @@ func (g *G) inline(c ictx, first bool) Inline {
 			}
 			raws := []string{"<b>", "</b>", "<span class=\"x y\">", "<i data-a='b'>", "<br/>", "<x-y z>", "<!-- c -->", "<?p q?>", "<![CDATA[a]]>", "<!DOCTYPE x>", "<a\nhref=\"u\">",
 				// raw HTML that runs over two or three lines (every line of it is part of the node)
-				"<!-- c\nd -->", "<!-- c\nd\ne -->", "<?p\nq?>", "<![CDATA[a\nb]]>", "<!X\ny>", "<i\ndata-a='b'\nclass=\"c\">"}
+				"<a b=\"\ufffd\">", "<i title='\ufffd x'>", "<!-- c\nd -->", "<!-- c\nd\ne -->", "<?p\nq?>", "<![CDATA[a\nb]]>", "<!X\ny>", "<i\ndata-a='b'\nclass=\"c\">"}
 			r := raws[g.s.Intn(len(raws))]
 			if c.oneLine && strings.Contains(r, "\n") {
 				continue
@@ -701,8 +701,13 @@ func (g *G) block(depth int, firstInItem bool, marker byte) Block {
 			if coin(g.s, 1, 10) {
 				// a line that looks like a link reference definition but is not one: an unbalanced '(' in the
 				// destination, text after the title, a label of 1000 characters; and '</ div>', which is no tag
-				nd := []string{"[zzr]: (b", "[zzr]: /u(", "[zzr]: b(c 't'", "[zzr]: /u 't' x", "[" + strings.Repeat("a", 1000) + "]: /u", "</ div>", "</ a>"}[g.s.Intn(7)]
+				nd := []string{"[zzr]: (b", "[zzr]: /u(", "[zzr]: b(c 't'", "[zzr]: /u 't' x", "[" + strings.Repeat("a", 1000) + "]: /u", "</ div>", "</ a>", "</a/>", "</x-y />"}[g.s.Intn(9)]
 				nearDefCount++
+				if coin(g.s, 1, 4) {
+					// a closing tag of pre / script / style / textarea alone on its line is no HTML block start
+					// (condition 7 excludes these names): a paragraph holding inline raw HTML
+					return Para{[]Inline{Raw{[]string{"</textarea>", "</pre>", "</script>", "</style>", "</TEXTAREA >"}[g.s.Intn(5)]}}}
+				}
 				return Para{[]Inline{Text{nd}}}
 			}
 			return Para{g.inlines(ictx{para: true}, 3)}
